@@ -20,7 +20,7 @@ From Coq Require Import List Arith Bool Lia.
 From LMBase Require Import Res ListX.
 From Coq Require Import ZArith.
 From LMBase Require Import IEEE.
-From LMScan Require Import ScanModel ScanLemmas ScanProofs MaxProofs ScanCheck CheckProofs ScanConcrete F32Order ConcreteProofs DiscLink.
+From LMScan Require Import ScanModel ScanLemmas ScanProofs MaxProofs ScanCheck CheckProofs ScanConcrete F32Order ConcreteProofs DiscLink DiscBridge.
 Import ListNotations.
 
 (* (1) The general statement: max() after any k calls of next().  Y = the hits consumed
@@ -387,6 +387,72 @@ Proof.
   - intros i j Hi Hj Hg. exact (c_scale_transfer (ce_dm v) _ _ _ Hsign (Hmain i Hi) Hg).
 Qed.
 
+(* and finally with no numeric hypothesis left, for well-conditioned matrices (coq/disc
+   C08_f32_main_well_conditioned_partial through DiscBridge.v, see C02.v): for every matrix
+   with finite non-wildcard cells that satisfies the executable conditioning predicate,
+   every sequence, wrap >= M-1, arm, block size >= 1, threshold and number k of preceding
+   next() calls, max() of the concrete binary32 scanner does not panic, returns None
+   exactly when no unconsumed position scores >= thr, and otherwise an unconsumed position
+   with its exact score, which is the maximum over the unconsumed positions. *)
+Theorem C03_concrete_max_well_conditioned :
+  forall (K C : nat) (pssm : list (list F32.t)) (sq : list nat) (wrap : nat) (v : cenv)
+         (am : arm) (thr : F32.t) (B : nat),
+    wf_input K C pssm sq wrap ->
+    c_env K C pssm sq wrap = Ok v ->
+    1 <= B ->
+    finite_nonwild K pssm ->
+    well_conditioned K pssm (ce_dm v) ->
+    forall k : nat,
+    exists (Y : list (nat * F32.t)) (r : option (nat * F32.t)),
+      ce_take_max v am thr B k = Ok (Y, Ok r) /\
+      match r with
+      | None =>
+          forall i, i + length pssm <= length sq -> F32.ge (score_def K sq pssm i) thr = true ->
+                    In i (map fst Y)
+      | Some (p, x) =>
+          (p + length pssm <= length sq /\ F32.ge (score_def K sq pssm p) thr = true /\ ~ In p (map fst Y)) /\
+          x = score_def K sq pssm p /\
+          (forall i, i + length pssm <= length sq -> ~ In i (map fst Y) ->
+                     F32.is_nan (score_def K sq pssm i) = false -> F32.ge x (score_def K sq pssm i) = true) /\
+          (k = 0 -> forall i, i + length pssm <= length sq ->
+                     F32.eq (score_def K sq pssm i) x = true -> i <= p)
+      end.
+Proof.
+  intros K C pssm sq wrap v am thr B Hwf Henv HB Hfin Hwc k.
+  apply (C03_concrete_max_c08 K C pssm sq wrap v am thr B Hwf Henv HB).
+  intros i _. exact (env_main_clause K C pssm sq wrap v Hwf Henv Hfin Hwc i).
+Qed.
+
+(* the same with the side conditions as the boolean the driver evaluates (extracted
+   wc_input; PROPFAIL detail `wc=true|false`) *)
+Theorem C03_concrete_max_wc_checked :
+  forall (K C : nat) (pssm : list (list F32.t)) (sq : list nat) (wrap : nat) (v : cenv)
+         (am : arm) (thr : F32.t) (B : nat),
+    wf_input K C pssm sq wrap ->
+    c_env K C pssm sq wrap = Ok v ->
+    1 <= B ->
+    wc_input K pssm (d_factor (ce_dm v)) = true ->
+    forall k : nat,
+    exists (Y : list (nat * F32.t)) (r : option (nat * F32.t)),
+      ce_take_max v am thr B k = Ok (Y, Ok r) /\
+      match r with
+      | None =>
+          forall i, i + length pssm <= length sq -> F32.ge (score_def K sq pssm i) thr = true ->
+                    In i (map fst Y)
+      | Some (p, x) =>
+          (p + length pssm <= length sq /\ F32.ge (score_def K sq pssm p) thr = true /\ ~ In p (map fst Y)) /\
+          x = score_def K sq pssm p /\
+          (forall i, i + length pssm <= length sq -> ~ In i (map fst Y) ->
+                     F32.is_nan (score_def K sq pssm i) = false -> F32.ge x (score_def K sq pssm i) = true) /\
+          (k = 0 -> forall i, i + length pssm <= length sq ->
+                     F32.eq (score_def K sq pssm i) x = true -> i <= p)
+      end.
+Proof.
+  intros K C pssm sq wrap v am thr B Hwf Henv HB Hwc k.
+  destruct (wc_input_sound K pssm (ce_dm v) Hwc) as (Hfin & Hw).
+  exact (C03_concrete_max_well_conditioned K C pssm sq wrap v am thr B Hwf Henv HB Hfin Hw k).
+Qed.
+
 Check C03_max_none_iff :
   forall (T : Type) (geb gtb eqb : T -> T -> bool) (is_nan : T -> bool) (scale : T -> nat)
          (score_position : nat -> res T) (score_rows : nat -> nat -> res dmatrix)
@@ -430,6 +496,29 @@ Check C03_max_is_maximum :
       p < Lm /\ x = score p /\ geb x thr = true /\
       (forall i, i < Lm -> is_nan (score i) = false -> geb x (score i) = true) /\
       (forall i, i < Lm -> eqb (score i) x = true -> i <= p).
+
+Check C03_concrete_max_wc_checked :
+  forall (K C : nat) (pssm : list (list F32.t)) (sq : list nat) (wrap : nat) (v : cenv)
+         (am : arm) (thr : F32.t) (B : nat),
+    wf_input K C pssm sq wrap ->
+    c_env K C pssm sq wrap = Ok v ->
+    1 <= B ->
+    wc_input K pssm (d_factor (ce_dm v)) = true ->
+    forall k : nat,
+    exists (Y : list (nat * F32.t)) (r : option (nat * F32.t)),
+      ce_take_max v am thr B k = Ok (Y, Ok r) /\
+      match r with
+      | None =>
+          forall i, i + length pssm <= length sq -> F32.ge (score_def K sq pssm i) thr = true ->
+                    In i (map fst Y)
+      | Some (p, x) =>
+          (p + length pssm <= length sq /\ F32.ge (score_def K sq pssm p) thr = true /\ ~ In p (map fst Y)) /\
+          x = score_def K sq pssm p /\
+          (forall i, i + length pssm <= length sq -> ~ In i (map fst Y) ->
+                     F32.is_nan (score_def K sq pssm i) = false -> F32.ge x (score_def K sq pssm i) = true) /\
+          (k = 0 -> forall i, i + length pssm <= length sq ->
+                     F32.eq (score_def K sq pssm i) x = true -> i <= p)
+      end.
 
 (* ---------- non-vacuity ---------- *)
 
@@ -557,3 +646,9 @@ Example C03_concrete_c08_nonvacuous :
             c_scale (ce_dm Ex.env) (score_def 5 Ex.sq Ex.pssm i)
             <= dscore_def 5 Ex.sq (d_data (ce_dm Ex.env)) i.
 Proof. exact Ex_main. Qed.
+
+(* ... and so do the side conditions of C03_concrete_max_well_conditioned *)
+Example C03_concrete_well_conditioned_nonvacuous :
+  wf_input 5 32 Ex.pssm Ex.sq 2 /\ c_env 5 32 Ex.pssm Ex.sq 2 = Ok Ex.env /\
+  finite_nonwild 5 Ex.pssm /\ well_conditioned 5 Ex.pssm (ce_dm Ex.env).
+Proof. split; [exact Ex.wf|]. split; [exact Ex.env_ok|]. split; [exact Ex_finite|exact Ex_well_conditioned]. Qed.
